@@ -151,9 +151,12 @@ func HarnessC04Steps() {
 			}
 		} else {
 			zz.Cover("multi-round")
-			// same step, next round: context of the previous response, and
-			// exactly the extra resources the previous response required
+			// same step, next round: context of the previous response, the
+			// desired state the step was first called with (the previous
+			// step's output, not its own earlier answer), and exactly the extra
+			// resources the previous response required
 			zz.Assert("round-receives-previous-rounds-context", call.context == prev.rsp.GetContext())
+			zz.Assert("every-round-receives-the-previous-steps-desired-state", call.desired == prev.desired)
 			want := prev.rsp.GetRequirements().GetExtraResources()
 			zz.Assert("round-supplied-exactly-the-required-keys", len(call.extraKeys) == len(want))
 			for x, key := range call.extraKeys {
